@@ -28,11 +28,12 @@ class EvGen:
     """action: None | 'void' | 'bool' | 'void0' | 'bool0';  unwind: control has unwind();
     action_unwind: whether an exception thrown by a rule's own action is reported as unwind of that rule."""
 
-    def __init__(s, doc, action=None, unwind=True, action_unwind=True, rof=()):
+    def __init__(s, doc, action=None, unwind=True, action_unwind=True, rof=(), statectl=False):
         s.doc = doc
         s.action = action
         s.unwind = unwind
         s.action_unwind = action_unwind
+        s.statectl = statectl   # contrib/state_control: a state object sees every hook (ids 200+r), in the documented order
         s.rof = set(rof)   # rule ids whose control raises on local failure (must_if)
         s.fns = {}
         s.order = []
@@ -47,33 +48,45 @@ class EvGen:
         s.order.append('/* %s */\nstatic out_t %s(u64 p, int a) {\n%s\n}\n' % (k, name, body))
         return name
 
+    def hook(s, kind, r, a='0', first='control'):
+        """one control hook; with state_control also the state's hook (start: control first; all others: state first)"""
+        c = 'sv(%d, %d, %s, 0);' % (EV[kind], r, a)
+        if not s.statectl:
+            return c
+        st = 'sv(%d, %d, %s, 0);' % (EV[kind], 200 + r, a)
+        return (c + ' ' + st) if first == 'control' else (st + ' ' + c)
+
     def frame(s, e, body_call):
         """identified rule: hooks + action around the body"""
         r = rid(e)
-        L = ['  sv(%d, %d, p, 0);' % (EV['START'], r)]
+        L = ['  ' + s.hook('START', r, 'p', 'control')]
         L.append('  out_t b = %s;' % body_call)
-        unw = '  if (b.r >= 2) { %sreturn b; }' % (('sv(%d, %d, 0, 0); ' % (EV['UNWIND'], r)) if s.unwind else '')
+        unw = '  if (b.r >= 2) { %sreturn b; }' % ((s.hook('UNWIND', r, '0', 'state') + ' ') if s.unwind else '')
         L.append(unw)
         L.append('  int ok = (b.r == 1);')
         if s.action:
             L.append('  if (ok && a) {')
             if s.action in ('void', 'bool'):
+                if s.statectl:
+                    L.append('    sv(%d, %d, 0, 0);' % (EV['APPLY'], 200 + r))
                 L.append('    sv(%d, %d, p, b.pos);' % (EV['APPLY'], r))
                 vb, ve = 'p', 'b.pos'
             else:
+                if s.statectl:
+                    L.append('    sv(%d, %d, 0, 0);' % (EV['APPLY0'], 200 + r))
                 L.append('    sv(%d, %d, 0, 0);' % (EV['APPLY0'], r))
                 vb, ve = '0', '0'
             if s.action in ('bool', 'bool0'):
                 L.append('    int v = sp_veto(%d, %s, %s);' % (r, vb, ve))
-                au = ('sv(%d, %d, 0, 0); ' % (EV['UNWIND'], r)) if (s.unwind and s.action_unwind) else ''
+                au = (s.hook('UNWIND', r, '0', 'state') + ' ') if (s.unwind and s.action_unwind) else ''
                 L.append('    if (v == 2) { %sout_t x = { 3, p, %d, p, b.far }; return x; }' % (au, 3000 + r))
                 L.append('    if (v == 0) ok = 0;')
             L.append('  }')
-        L.append('  if (ok) { sv(%d, %d, b.pos, 0); return b; }' % (EV['SUCCESS'], r))
+        L.append('  if (ok) { %s return b; }' % s.hook('SUCCESS', r, 'b.pos', 'state'))
         if r in s.rof:
             L.append('  sv(%d, %d, 0, 0); { out_t x = { 2, p, %d, p, b.far }; return x; }' % (EV['RAISE'], r, r))
         else:
-            L.append('  sv(%d, %d, 0, 0); return sp_fail(p, b.far);' % (EV['FAILURE'], r))
+            L.append('  %s return sp_fail(p, b.far);' % s.hook('FAILURE', r, '0', 'state'))
         return '\n'.join(L)
 
     def body(s, e):
@@ -92,7 +105,8 @@ class EvGen:
         if n == 'eof':
             return '  return p == sp_n ? sp_succ(p, p) : sp_fail(p, p);'
         if n == 'raise':
-            return '  sv(%d, %d, 0, 0); { out_t o = { 2, p, %d, p, p }; return o; }' % (EV['RAISE'], rid(a[0]), rid(a[0]))
+            st = ('sv(%d, %d, 0, 0); ' % (EV['RAISE'], 200 + rid(a[0]))) if s.statectl and rid(a[0]) >= 0 else ''
+            return '  %ssv(%d, %d, 0, 0); { out_t o = { 2, p, %d, p, p }; return o; }' % (st, EV['RAISE'], rid(a[0]), rid(a[0]))
         if n == 'seq':
             if not a:
                 return '  return sp_succ(p, p);'
@@ -220,9 +234,9 @@ static void harness(void) {
 '''
 
 
-def harness_text(expr_text, wrappers, N, K, doc, action=None, unwind=True, maxres=3, vetomax=2, evmax=24, action_unwind=True, reach=(), lazy=False, rof=()):
+def harness_text(expr_text, wrappers, N, K, doc, action=None, unwind=True, maxres=3, vetomax=2, evmax=24, action_unwind=True, reach=(), lazy=False, rof=(), statectl=False):
     """wrappers: list of (wrapper function name, actions_enabled 0/1, rewind required 0/1)"""
-    g = EvGen(doc, action=action, unwind=unwind, action_unwind=action_unwind, rof=rof)
+    g = EvGen(doc, action=action, unwind=unwind, action_unwind=action_unwind, rof=rof, statectl=statectl)
     e = parse(expr_text)
     fn = g.fn(e)
     calls = []
